@@ -454,7 +454,7 @@ fn check(prop: &str, tier: &str) -> i32 {
             rep.assumptions.push("failed-commit-then-drop stop mode is enumerated under C08 with the same recovery oracle".into());
             rep.finish()
         }
-        "C20" => contractx::run(tier),
+        "C20" => contractx::run(tier, schedrun_selftest("S10")),
         "C03" | "C16" => {
             use vh::schedrun::Plan;
             let mut rep = Report::new(prop, tier, "model_checking");
